@@ -62,14 +62,40 @@ Inductive req :=
 | QRead (c : N) (armed : bool) (want : N)
 | QClose (c : N).
 
+(* The Persistence is either scripted (w_store = None: answers come from t_st, any
+   answers at all: a hostile or damaged store) or a genuine key-value map with
+   injected failures (w_store = Some m: answers are computed, t_stf says which
+   operations fail).  Keys of the map are kept in ascending order. *)
+Definition store := list (N * list N).
+
 Record world := mkWorld {
-  t_st : list sans;          (* Persistence answers *)
+  t_st : list sans;          (* scripted Persistence answers *)
+  t_stf : list bool;         (* map mode: does this Persistence operation fail? *)
+  w_store : option store;
   t_dial : list bool;        (* Dialer answers: connection or error *)
   t_wr : list wanswer;       (* conn.Write answers (non-empty arguments only) *)
   t_rd : list rans;          (* conn.Read answers *)
   w_log : list req           (* calls made, newest first *)
 }.
-#[export] Instance eta_world : Settable _ := settable! mkWorld <t_st; t_dial; t_wr; t_rd; w_log>.
+#[export] Instance eta_world : Settable _ := settable! mkWorld <t_st; t_stf; w_store; t_dial; t_wr; t_rd; w_log>.
+
+Fixpoint store_get (m : store) (k : N) : option (list N) :=
+  match m with
+  | [] => None
+  | (k', v) :: r => if k' =? k then Some v else store_get r k
+  end.
+Fixpoint store_put (m : store) (k : N) (v : list N) : store :=
+  match m with
+  | [] => [(k, v)]
+  | (k', v') :: r => if k =? k' then (k, v) :: r
+                     else if k <? k' then (k, v) :: m
+                     else (k', v') :: store_put r k v
+  end.
+Fixpoint store_del (m : store) (k : N) : store :=
+  match m with
+  | [] => []
+  | (k', v') :: r => if k' =? k then r else (k', v') :: store_del r k
+  end.
 
 (* computations over the world; None = script exhausted (never in a well-formed run) *)
 Definition M (A : Type) := world -> option (A * world).
@@ -81,10 +107,28 @@ Notation "' p <- m ;; k" := (bind m (fun p => k)) (at level 61, p pattern, m at 
 Definition fail_tape {A} : M A := fun _ => None.
 
 Definition ask_store (q : req) : M sans :=
-  fun w => match t_st w with
-           | [] => None
-           | a :: t => Some (a, w <| t_st := t |> <| w_log ::= cons q |>)
-           end.
+  fun w =>
+    match w_store w with
+    | None =>
+      match t_st w with
+      | [] => None
+      | a :: t => Some (a, w <| t_st := t |> <| w_log ::= cons q |>)
+      end
+    | Some m =>
+      match t_stf w with
+      | [] => None
+      | true :: t => Some (SFail, w <| t_stf := t |> <| w_log ::= cons q |>)
+      | false :: t =>
+        let w := w <| t_stf := t |> <| w_log ::= cons q |> in
+        match q with
+        | QList => Some (SKeys (map fst m), w)
+        | QLoad k => Some (SVal (store_get m k), w)
+        | QSave k v => Some (SDone, w <| w_store := Some (store_put m k v) |>)
+        | QDelete k => Some (SDone, w <| w_store := Some (store_del m k) |>)
+        | _ => None
+        end
+      end
+    end.
 Definition ask_dial : M bool :=
   fun w => match t_dial w with
            | [] => None
@@ -113,7 +157,8 @@ Inductive pkind :=
 | PkSub (pid : N) | PkUnsub (pid : N) | PkPing.
 
 Record scfg := mkScfg {
-  s_cfg : cfg; s_pause : bool; s_max1 : N; s_max2 : N; s_rcap : N
+  s_cfg : cfg; s_pause : bool; s_max1 : N; s_max2 : N; s_rcap : N;
+  s_wmin : N; s_wmax : N      (* ReconnectWaitMin/Max in ms, as newClient normalises them *)
 }.
 
 Record client := mkClient {
@@ -139,13 +184,14 @@ Record client := mkClient {
   k_newsess : bool;
   k_nextx : N; k_nextr : N;
   k_parked : list (N * pkind);
+  k_rwait : N;                      (* reconnectWait, ms *)
   k_done : list (N * err * list (list N));   (* requests completed in this step *)
   k_xev : list (N * option err)     (* exchange events of this step, newest first: error / close *)
 }.
 #[export] Instance eta_client : Settable _ := settable! mkClient
   <k_cfg; k_rseq; k_closed; k_seqclosed; k_csem; k_wsem; k_nconn; k_rconn; k_rbuf; k_rerr; k_rarm;
    k_peekn; k_pack; k_big; k_acc1; k_sub1; k_acked; k_acc2; k_sub2; k_recvd; k_compl; k_q1; k_q2;
-   k_txn; k_txs; k_ping; k_online; k_newsess; k_nextx; k_nextr; k_parked; k_done; k_xev>.
+   k_txn; k_txs; k_ping; k_online; k_newsess; k_nextx; k_nextr; k_parked; k_rwait; k_done; k_xev>.
 
 Definition id_mask : N := 16383.          (* publishIDMask *)
 Definition alo_space : N := 32768.        (* atLeastOnceIDSpace *)
@@ -161,7 +207,7 @@ Definition new_client (cf : scfg) (rseq : N) : client :=
      k_peekn := 0; k_pack := []; k_big := None;
      k_acc1 := 0; k_sub1 := 0; k_acked := 0; k_acc2 := 0; k_sub2 := 0; k_recvd := 0; k_compl := 0;
      k_q1 := []; k_q2 := []; k_txn := 0; k_txs := []; k_ping := None; k_online := false;
-     k_newsess := false; k_nextx := 1; k_nextr := 0; k_parked := []; k_done := []; k_xev := [] |}.
+     k_newsess := false; k_nextx := 1; k_nextr := 0; k_parked := []; k_rwait := 0; k_done := []; k_xev := [] |}.
 
 (* newClient's limit normalisation *)
 Definition norm_max (z : Z) : N :=
@@ -419,7 +465,7 @@ Definition connect (c : client) : M (client * err) :=
         ret (release_locked c E_down, e2)
       else
         if has_locked c then fail_tape      (* woken writers race with the read routine: not sequential *)
-        else ret (c <| k_online := true |> <| k_wsem := WsConn cn |>, E_nil)
+        else ret (c <| k_online := true |> <| k_wsem := WsConn cn |> <| k_rwait := 0 |>, E_nil)
     end
   end.
 
@@ -611,7 +657,8 @@ Inductive retv :=
 | RetExch (x : N)                          (* persisted publish accepted: exchange id *)
 | RetParked                                (* the request's goroutine is blocked *)
 | RetAdopt (nwarn : N) (fatal : err)
-| RetBytes (bs : list N).
+| RetBytes (bs : list N)
+| RetWait (kind : N) (ms : N).             (* ReadBackoff: 0 released channel, 1 nil channel, 2 timer *)
 
 Fixpoint read_loop (fuel : nat) (c : client) : M (client * retv) :=
   match fuel with
@@ -948,7 +995,8 @@ Definition op_adopt (cf : scfg) (max1z max2z : Z) : M (option client * retv) :=
       let rel := if gap then [] else rel in
       let warn := a_warn acc + g1 + g2 + g3 + (if gap then 1 else 0) in
       let cf := {| s_cfg := s_cfg cf; s_pause := s_pause cf; s_max1 := norm_max max1z;
-                   s_max2 := norm_max max2z; s_rcap := s_rcap cf |} in
+                   s_max2 := norm_max max2z; s_rcap := s_rcap cf;
+                   s_wmin := s_wmin cf; s_wmax := s_wmax cf |} in
       if (s_max1 cf <? len alo) || (s_max2 cf <? len eo + len rel) then ret (None, RetAdopt warn E_other) else
       let c := new_client cf (a_max acc) in
       let c := match alo with
@@ -980,6 +1028,18 @@ Definition op_adopt (cf : scfg) (max1z max2z : Z) : M (option client * retv) :=
   | _ => fail_tape
   end.
 
+(* ReadBackoff(err) for the error class ReadSlices returned last *)
+Definition op_read_backoff (c : client) (e : err) : client * retv :=
+  if (e =? 0) || (match k_big c with Some _ => true | None => false end) then (c, RetWait 0 0) else
+  if N.testbit e 1 then (c, RetWait 1 0) else
+  match k_rconn c with
+  | Some _ => (c, RetWait 2 1000)                          (* the error came from the Persistence *)
+  | None =>
+    if N.testbit e 10 then (c, RetWait 2 (s_wmax (k_cfg c))) else
+    let idle := N.min (N.max (k_rwait c) (s_wmin (k_cfg c))) (s_wmax (k_cfg c)) in
+    (c <| k_rwait := 2 * idle |>, RetWait 2 idle)
+  end.
+
 (* ------------------------------------------------------------------ *)
 (* Operations and histories                                            *)
 
@@ -992,7 +1052,8 @@ Inductive op :=
 | OpPing
 | OpQuit (rid : N)
 | OpClose | OpDisconnect
-| OpAdopt (max1 max2 : Z).       (* process stop; AdoptSession on the same Persistence *)
+| OpAdopt (max1 max2 : Z)        (* process stop; AdoptSession on the same Persistence *)
+| OpReadBackoff (e : err).
 
 Definition step (c : client) (o : op) : M (client * retv) :=
   let c := c <| k_done := [] |> <| k_xev := [] |> in
@@ -1013,4 +1074,5 @@ Definition step (c : client) (o : op) : M (client * retv) :=
     | Some c' => ret (c' <| k_nconn := k_nconn c |>, r)    (* connection numbering is the environment's *)
     | None => ret (c, r)
     end
+  | OpReadBackoff e => ret (op_read_backoff c e)
   end.
